@@ -650,6 +650,9 @@ func (s *StateDB) Commit(deleteEmptyObjects bool) (root common.Hash, err error) 
 			s.updateStateObject(stateObject)
 		}
 		delete(s.stateObjectsDirty, addr)
+		// The object is clean again: re-arm its dirty callback, otherwise later changes made through
+		// this StateDB would never reach the trie (the callback is one-shot and was used up).
+		stateObject.onDirty = s.MarkStateObjectDirty
 	}
 	// Write trie changes.
 	root, err = s.trie.Commit(func(leaf []byte, parent common.Hash) error {
